@@ -21,6 +21,7 @@
 -/
 import Mhd.Proofs.ConnMem
 import Mhd.Proofs.ConnRead
+import Mhd.Proofs.ConnReadCfg
 import Mhd.Props.C02
 import Mhd.Props.C08
 
@@ -215,6 +216,67 @@ example :
     (let x := Mhd.ConnRead.run (exCfg .none) (Mhd.ConnRead.init 64 64 16 0) [List.replicate 200 65]
      match x.phase with
      | .error .noSpace => true
+     | _ => false) = true := by decide +kernel
+
+open Mhd.ConnRead in
+/-- **(2c) the body / chunk decoder reads below the fill level only.**  In every state of every run in the
+    body phase, what `process_request_body`'s decoder is handed (`Body.window`) is exactly the received bytes
+    `[read_buffer, read_buffer + read_buffer_offset)` of the arena prefix: its length is `read_buffer_offset`,
+    its `k`-th byte is the arena byte `read_buffer + k`, and the arena prefix ends there — no byte behind the
+    fill level (stale remnants of earlier payload) is visible to it.  `body_decoder_within_window` adds that
+    no decision of the decoder loop advances beyond the window. -/
+theorem connread_reads_below_fill (cfg : Mhd.ConnRead.Cfg) (allocSize poolSize inc : Nat) (lvl : Int)
+    (ha : allocSize % A = 0) (hs : allocSize < 2 ^ 62) (hp : poolSize ≤ allocSize) (chunks : List (List UInt8)) :
+    let x := Mhd.ConnRead.run cfg (Mhd.ConnRead.init allocSize poolSize inc lvl) chunks
+    ∀ b, x.phase = .body b →
+      b.window.length = x.cm.rbOff ∧ b.buf.size = b.rb + x.cm.rbOff ∧
+      ∀ k, k < x.cm.rbOff → b.window[k]? = b.buf[b.rb + k]? := by
+  intro x b hb
+  exact body_window (run_safe inc cfg chunks _ (init_safe allocSize poolSize inc lvl ha hs hp)) b hb
+
+open Mhd.ConnRead in
+/-- the decoder loop on a window `w`: whatever the chunk decoder decides (chunk terminator, size line,
+    payload), `buffer_head` stays inside the window — the explicit `overrun` result is unreachable and the
+    final `buffer_head − read_buffer` is at most `|w|` (so `available` never wraps) -/
+theorem body_decoder_within_window (lvl : Int) (take : Nat → Nat → Nat) (chunked : Bool) (w : List UInt8)
+    (fuel : Nat) (s : BL) (h : s.head ≤ w.length) :
+    (∀ n, bodyLoop lvl take chunked w fuel s ≠ .overrun n) ∧
+    (∀ s', bodyLoop lvl take chunked w fuel s = .ok s' → s'.head ≤ w.length) :=
+  bodyLoop_ok lvl take chunked w fuel s h
+
+/-- Non-vacuity of (2c) and of the split chunk terminator: `3 CRLF abc CR` | `LF 0 CRLF CRLF`, the first read
+    ends between CR and LF of the chunk terminator: the decoder waits with the CR in the window (1 byte), the
+    next read completes the request. -/
+example :
+    (let x := Mhd.ConnRead.run (exCfg .chunked) (Mhd.ConnRead.init 256 256 16 0)
+        [[80, 32, 47, 32, 72, 84, 84, 80, 47, 49, 46, 49, 13, 10, 13, 10, 51, 13, 10, 97, 98, 99, 13], [], []]
+     match x.phase with
+     | .body b => (b.window, b.cur, b.off) == ([13], 3, 3)
+     | _ => false) = true := by decide +kernel
+
+open Mhd.ConnRead in
+/-- **internal look-ups consult header-kind elements only.**  The keep-alive decision (`keepalive_possible`:
+    tokens `close` / `Keep-Alive` of the request's `Connection` field) and the framing decision
+    (`parse_connection_headers`: Host, Transfer-Encoding, Content-Length, Cookie) of the standard
+    configuration are functions of the elements of kind MHD_HEADER_KIND alone: query arguments (with or
+    without value), cookies or trailers named like these fields cannot influence them. -/
+theorem internal_lookups_header_kind_only (lvl : Int) (pat : List Nat) (buf : Mhd.Req.Bytes) (rq : Rq) :
+    (mkCfg lvl pat).keepAlive buf rq =
+      (mkCfg lvl pat).keepAlive buf { rq with elems := rq.elems.filter (fun e => e.kind == Mhd.Gen.Http.kindHeader) } ∧
+    (mkCfg lvl pat).frame buf rq =
+      (mkCfg lvl pat).frame buf { rq with elems := rq.elems.filter (fun e => e.kind == Mhd.Gen.Http.kindHeader) } :=
+  ⟨keepAlive_header_kind_only lvl pat buf rq, frame_header_kind_only lvl pat buf rq⟩
+
+/-- Non-vacuity: `GET /?Connection HTTP/1.1` + `Connection: close`: the valueless query argument named
+    `Connection` is in the element list (kind GET_ARGUMENT, value NULL) but the decision comes from the
+    header field: the connection is closed after the reply. -/
+example :
+    (let x := Mhd.ConnRead.run (Mhd.ConnRead.mkCfg 0 []) (Mhd.ConnRead.init 512 512 16 0)
+        [[71, 69, 84, 32, 47, 63, 67, 111, 110, 110, 101, 99, 116, 105, 111, 110, 32, 72, 84, 84, 80, 47, 49, 46, 49, 13, 10,
+          72, 111, 115, 116, 58, 32, 104, 13, 10,
+          67, 111, 110, 110, 101, 99, 116, 105, 111, 110, 58, 32, 99, 108, 111, 115, 101, 13, 10, 13, 10]]
+     match x.phase with
+     | .error .closed => true
      | _ => false) = true := by decide +kernel
 
 /-- **Witness for the guard (3) rests on** (defect F32 in `try_grow_read_buffer`, liveness only): in the variant
